@@ -433,6 +433,29 @@ def det_as_completed(fs, timeout=None):
         yield fut
 
 
+def det_wait(fs, timeout=None, return_when='ALL_COMPLETED'):
+    """concurrent.futures.wait driven by the schedule (for code that waits instead of iterating as_completed): with
+    FIRST_COMPLETED one OR TWO futures finish before it returns (two workers may finish at the same moment)."""
+    from concurrent.futures import DoneAndNotDoneFutures
+    rig = RIG
+    if not isinstance(fs, dict) and isinstance(getattr(fs, 'mapping', None), Mapping):
+        fs = fs.mapping
+    if isinstance(fs, (dict, Mapping)):
+        rig.futs = fs
+    fl = list(fs)
+    rig.events.append(('wait', tuple(_pid_of_task(fs[f]) if isinstance(fs, (dict, Mapping)) else -1 for f in fl)))
+    done = [f for f in fl if f.done()]
+    first = str(return_when) == 'FIRST_COMPLETED'
+    todo = [f for f in fl if not f.done()]
+    n = len(todo) if not first else (0 if done else min(len(todo), 1 + rig.choose(2)))
+    for _ in range(n):
+        rig.tick()
+        fut = todo.pop(rig.choose(len(todo)))
+        _complete(fut)
+        done.append(fut)
+    return DoneAndNotDoneFutures(set(done), set(todo))
+
+
 class FakeManager:
     def Event(self):
         RIG.stop = threading.Event()
@@ -450,19 +473,28 @@ class Patched:
         pp = sys.modules['tatsu.parproc.parproc']    # (the package attribute `parproc` is the function)
         pm = sys.modules['tatsu.parproc.pmap']
         self.pp, self.pm = pp, pm
-        self.saved = (cf.ProcessPoolExecutor, cf.ThreadPoolExecutor, pm.as_completed, multiprocessing.Manager,
+        # the loop may be written with as_completed or with wait: whichever name the module holds is driven by the schedule
+        self.saved = (cf.ProcessPoolExecutor, cf.ThreadPoolExecutor, getattr(pm, 'as_completed', None), multiprocessing.Manager,
                       pm.HAS_MULTITHREADING_SUPPORT, pp.HAS_MULTITHREADING_SUPPORT)
+        self.saved_wait = getattr(pm, 'wait', None)
         cf.ProcessPoolExecutor = DetProcessPool
         cf.ThreadPoolExecutor = DetThreadPool
-        pm.as_completed = det_as_completed
+        if hasattr(pm, 'as_completed'):
+            pm.as_completed = det_as_completed
+        if hasattr(pm, 'wait'):
+            pm.wait = det_wait
         multiprocessing.Manager = FakeManager
         pm.HAS_MULTITHREADING_SUPPORT = self.threads
         pp.HAS_MULTITHREADING_SUPPORT = False      # keep the Manager().Event() path (faked) so the rig sees `stop`
         return self
 
     def __exit__(self, *a):
-        (cf.ProcessPoolExecutor, cf.ThreadPoolExecutor, self.pm.as_completed, multiprocessing.Manager,
+        (cf.ProcessPoolExecutor, cf.ThreadPoolExecutor, ac, multiprocessing.Manager,
          self.pm.HAS_MULTITHREADING_SUPPORT, self.pp.HAS_MULTITHREADING_SUPPORT) = self.saved
+        if ac is not None:
+            self.pm.as_completed = ac
+        if self.saved_wait is not None:
+            self.pm.wait = self.saved_wait
         return False
 
 
